@@ -2,7 +2,10 @@
 use super::*;
 
 pub fn contracts() -> Vec<Contract> {
-    vec![Contract { name: "c16_param_names", function: "signature/fn_params.rs::fix_fn_param_idents (+ fix_ident_conflicts, lift_inner_pat_idents, autogenerate_for_non_idents)", props: &["C16", "C01", "C15"], run: c16 }]
+    vec![
+        Contract { name: "c16_stage_contracts", function: "signature/fn_params.rs::{fix_ident_conflicts, lift_inner_pat_idents, autogenerate_for_non_idents} - the contracts the E1 proof of fix_fn_param_idents assumes", props: &["C16", "C01"], run: c16_stages },
+        Contract { name: "c16_param_names", function: "signature/fn_params.rs::fix_fn_param_idents (+ fix_ident_conflicts, lift_inner_pat_idents, autogenerate_for_non_idents)", props: &["C16", "C01", "C15"], run: c16 },
+    ]
 }
 
 struct Sym {
@@ -13,7 +16,8 @@ struct Sym {
     single: Option<&'static str>,
 }
 
-const ALPHABET: [Sym; 17] = [
+const ALPHABET: [Sym; 18] = [
+    Sym { pat: "W(foo_)", plain: None, single: Some("foo_") }, // single binding equal to what `foo` would be renamed to
     Sym { pat: "mut foo", plain: Some("foo"), single: None }, // binding mode on a parameter named like the function
     Sym { pat: "ref foo", plain: Some("foo"), single: None },
     Sym { pat: "a", plain: Some("a"), single: None },
@@ -35,7 +39,7 @@ const ALPHABET: [Sym; 17] = [
 
 fn c16(ctx: &Ctx, r: &mut Report) {
     let max = if ctx.tier == Tier::Thorough { 6 } else { 4 };
-    r.domain = "all lists of irrefutable parameter patterns over {a, mut m, ref r, r#type, _, (p,q), N(n), N(k,_), S{s}, &amp, foo (= fn name), mut foo, ref foo, foo_, arg1, _arg0, W(foo)} for `fn foo`, with and without a leading receiver; a symbol is not repeated (bindings must be distinct in valid Rust) except `_`".into();
+    r.domain = "all lists of irrefutable parameter patterns over {a, mut m, ref r, r#type, _, (p,q), N(n), N(k,_), S{s}, &amp, foo (= fn name), mut foo, ref foo, foo_, arg1, _arg0, W(foo), W(foo_)} for `fn foo`, with and without a leading receiver; a symbol is not repeated (bindings must be distinct in valid Rust) except `_`".into();
     r.bound = format!("list length 0..{}", max);
     for n in 0..=max {
         for seq in sequences(ALPHABET.len(), n) {
@@ -122,6 +126,134 @@ fn c16(ctx: &Ctx, r: &mut Report) {
                             }
                         }
                     }
+                });
+            }
+        }
+    }
+}
+
+// ---- the assumed contracts of contracts/fn_params.vspec, made executable
+
+fn all_plain(sig: &syn::Signature) -> bool {
+    sig.inputs.iter().all(|a| match a {
+        syn::FnArg::Typed(pt) => matches!(pt.pat.as_ref(), syn::Pat::Ident(_)),
+        syn::FnArg::Receiver(_) => true,
+    })
+}
+
+fn no_conflict(sig: &syn::Signature) -> bool {
+    sig.inputs.iter().all(|a| match a {
+        syn::FnArg::Typed(pt) => match pt.pat.as_ref() {
+            syn::Pat::Ident(pi) => pi.ident != sig.ident,
+            _ => true,
+        },
+        syn::FnArg::Receiver(_) => true,
+    })
+}
+
+fn same_shape(a: &syn::Signature, b: &syn::Signature) -> bool {
+    a.ident == b.ident
+        && a.inputs.len() == b.inputs.len()
+        && a.inputs.iter().zip(b.inputs.iter()).all(|(x, y)| match (x, y) {
+            (syn::FnArg::Typed(p), syn::FnArg::Typed(q)) => tt_string(&p.ty) == tt_string(&q.ty),
+            (syn::FnArg::Receiver(p), syn::FnArg::Receiver(q)) => tt_string(p) == tt_string(q),
+            _ => false,
+        })
+}
+
+/// the contracts E1 assumes for the three stages, checked on the real functions - on every enumerated signature and on
+/// every intermediate signature the real pipeline passes from one stage to the next
+fn c16_stages(ctx: &Ctx, r: &mut Report) {
+    use crate::signature::vx_glue::stages;
+    let max = if ctx.tier == Tier::Thorough { 4 } else { 3 };
+    r.domain = "the pattern lists of c16_param_names (17-symbol alphabet, fn foo), with and without a leading receiver; each stage is run on the enumerated signature and on the outputs of the stages before it".into();
+    r.bound = format!("list length 0..{}", max);
+    if !stages::AVAILABLE {
+        r.domain = "NOT REPLAYED: the stage functions fix_ident_conflicts / lift_inner_pat_idents / autogenerate_for_non_idents were not found under these names and signatures in this tree; the contracts assumed for them by the E1 proof of fix_fn_param_idents stay untested assumptions in this run".into();
+        r.exhaustive = false;
+        return;
+    }
+    for n in 0..=max {
+        for seq in sequences(ALPHABET.len(), n) {
+            let mut names: Vec<&str> = vec![];
+            let mut dup = false;
+            for s in &seq {
+                let sym = &ALPHABET[*s];
+                for nm in sym.plain.iter().chain(sym.single.iter()) {
+                    dup |= names.contains(nm);
+                    names.push(nm);
+                }
+                if sym.pat == "(p, q)" {
+                    dup |= names.contains(&"p");
+                    names.push("p");
+                    names.push("q");
+                }
+            }
+            if dup {
+                continue;
+            }
+            for recv in [false, true] {
+                if recv && n > 2 {
+                    continue;
+                }
+                let mut params: Vec<String> = vec![];
+                if recv {
+                    params.push("&self".into());
+                }
+                for (i, s) in seq.iter().enumerate() {
+                    params.push(format!("{}: T{}", ALPHABET[*s].pat, i));
+                }
+                let src = format!("fn foo({})", params.join(", "));
+                r.guarded(&src, |r| {
+                    let s0: syn::Signature = syn::parse_str(&src).unwrap();
+                    let fix = |r: &mut Report, before: &syn::Signature, at: &str| -> syn::Signature {
+                        let mut after = before.clone();
+                        let ok = stages::fix_ident_conflicts(&mut after);
+                        if ok != all_plain(&after) {
+                            r.fail("fix-status", &src, format!("{}: fix_ident_conflicts returned {} but the parameters are {}all plain identifiers: `{}`", at, if ok { "Ok" } else { "NeedsFix" }, if all_plain(&after) { "" } else { "not " }, tt_string(&after)));
+                        }
+                        if all_plain(before) && !all_plain(&after) {
+                            r.fail("fix-unplains", &src, format!("{}: fix_ident_conflicts turned an identifier into a pattern: `{}`", at, tt_string(&after)));
+                        }
+                        if !no_conflict(&after) {
+                            r.fail("fix-leaves-conflict", &src, format!("{}: after fix_ident_conflicts a parameter is still named like the function: `{}`", at, tt_string(&after)));
+                        }
+                        if !same_shape(before, &after) {
+                            r.fail("stage-changes-shape", &src, format!("{}: fix_ident_conflicts changed the parameter list's shape: `{}`", at, tt_string(&after)));
+                        }
+                        after
+                    };
+                    let lift = |r: &mut Report, before: &syn::Signature, at: &str| -> (bool, syn::Signature) {
+                        let mut after = before.clone();
+                        let ok = stages::lift_inner_pat_idents(&mut after);
+                        if ok != all_plain(&after) {
+                            r.fail("lift-status", &src, format!("{}: lift_inner_pat_idents returned {} for `{}`", at, if ok { "Ok" } else { "NeedsFix" }, tt_string(&after)));
+                        }
+                        if !same_shape(before, &after) {
+                            r.fail("stage-changes-shape", &src, format!("{}: lift_inner_pat_idents changed the parameter list's shape: `{}`", at, tt_string(&after)));
+                        }
+                        (ok, after)
+                    };
+                    let auto = |r: &mut Report, before: &syn::Signature, at: &str| -> syn::Signature {
+                        let mut after = before.clone();
+                        stages::autogenerate_for_non_idents(&mut after);
+                        if !all_plain(&after) {
+                            r.fail("autogenerate-leaves-pattern", &src, format!("{}: after autogenerate_for_non_idents a pattern is left: `{}`", at, tt_string(&after)));
+                        }
+                        if !same_shape(before, &after) {
+                            r.fail("stage-changes-shape", &src, format!("{}: autogenerate_for_non_idents changed the parameter list's shape: `{}`", at, tt_string(&after)));
+                        }
+                        after
+                    };
+                    // every stage directly on the enumerated signature
+                    let s1 = fix(r, &s0, "on the input");
+                    let _ = lift(r, &s0, "on the input");
+                    let _ = auto(r, &s0, "on the input");
+                    // and along the real pipeline
+                    let (_, s2) = lift(r, &s1, "after fix");
+                    let s3 = auto(r, &s2, "after fix, lift");
+                    let _ = fix(r, &s2, "after fix, lift");
+                    let _ = fix(r, &s3, "after fix, lift, autogenerate");
                 });
             }
         }
